@@ -244,6 +244,14 @@ impl Backend {
                 std::fs::create_dir_all(&bare).unwrap();
                 let ok = std::process::Command::new("git").args(["init", "--bare", "-b", "main"]).current_dir(&bare).output().expect("git").status.success();
                 assert!(ok, "git init --bare");
+                // both devices cloned the remote while it was still empty
+                for c in ["clone0", "clone1"] {
+                    let ok = std::process::Command::new("git").args(["clone", "-q", bare.to_str().unwrap(), c]).current_dir(&root).output().expect("git").status.success();
+                    assert!(ok, "git clone of the empty remote");
+                    for (k, v) in [("user.email", "taskchampion@local"), ("user.name", "taskchampion")] {
+                        let _ = std::process::Command::new("git").args(["config", k, v]).current_dir(root.join(c)).output();
+                    }
+                }
                 b.root = Some(root);
             }
             BackendKind::Cloud => {
